@@ -334,7 +334,7 @@ theorem lookup_insertLhs (x : Bytes × List (Nat × Nat)) (l : List (Bytes × Li
       by_cases h1 : k = x.1
       · have : k ≠ y1 := by
           intro e; rw [h1] at e; simp only at hlt; rw [← e, MergeL.Bytes.lt_irrefl] at hlt; cases hlt
-        simp [h1, this]
+        simp [h1]
         intro e; exact absurd (h1 ▸ e) this
       · simp [h1]
     · obtain ⟨a, b⟩ := x; simp [lookup]
@@ -390,7 +390,7 @@ theorem lookup_finishTerms (d : List (Bytes × List (Nat × Nat))) (h : (d.map (
   rw [lookup_filter _ k _ hnd, lookup_sortLhs]
   cases lookup k d with
   | none => rfl
-  | some cs => cases hc : cs.isEmpty <;> simp [hc]
+  | some cs => cases cs.isEmpty <;> simp
 
 /-! ### Synonym ids (pass 1) -/
 
@@ -938,5 +938,49 @@ theorem build_dictTerms_syn (v : Bool) (mode : Nat) (b : Batch) (hne : b ≠ [])
   · rename_i hn
     rw [processDocs_untouched v _ n hn b hno]; rfl
   · rfl
+
+/-! ### Remaining C12 helpers -/
+
+theorem synPairs_meaning (b : Batch) (n : Name) (term syn : Bytes) (d : Nat) :
+    (syn, d) ∈ synPairs b n term ↔
+      ∃ doc, b[d]? = some doc ∧ ∃ f ∈ doc.fields, f.kind = .syn ∧ f.name = n ∧
+        ∃ df ∈ f.defs, df.lhs = term ∧ syn ∈ df.rhs := by
+  rw [mem_synPairs]
+  constructor
+  · rintro ⟨p, hp, df, hdf, hl, hs, rfl⟩
+    obtain ⟨f, hf, hk, hn, hdf'⟩ := mem_synDefs.1 hdf
+    exact ⟨p.1, List.mem_zipIdx_iff_getElem?.1 hp, f, hf, hk, hn, df, hdf', hl, hs⟩
+  · rintro ⟨doc, hd, f, hf, hk, hn, df, hdf, hl, hs⟩
+    exact ⟨(doc, d), List.mem_zipIdx_iff_getElem?.2 hd, df, mem_synDefs.2 ⟨f, hf, hk, hn, hdf⟩, hl, hs, rfl⟩
+
+theorem thesTermsSet_meaning (b : Batch) (n : Name) (term : Bytes) :
+    term ∈ thesTermsSet b n ↔ ∃ syn d, (syn, d) ∈ synPairs b n term := by
+  rw [mem_thesTermsSet]
+  constructor
+  · rintro ⟨d, hd, df, hdf, hr, hl⟩
+    obtain ⟨i, hi⟩ := mem_zipIdx_of_mem hd
+    cases hrr : df.rhs with
+    | nil => exact absurd hrr hr
+    | cons s rest =>
+      exact ⟨s, i, (mem_synPairs b n term s i).2 ⟨(d, i), hi, df, hdf, hl, by rw [hrr]; exact List.mem_cons_self, rfl⟩⟩
+  · rintro ⟨syn, i, h⟩
+    obtain ⟨p, hp, df, hdf, hl, hs, _⟩ := (mem_synPairs b n term syn i).1 h
+    exact ⟨p.1, zipIdx_mem_left hp, df, hdf, List.ne_nil_of_mem hs, hl⟩
+
+theorem hasSynField_of_pair {b : Batch} {n : Name} {term syn : Bytes} {d : Nat}
+    (h : (syn, d) ∈ synPairs b n term) : hasSynField b n := by
+  obtain ⟨p, hp, df, hdf, _, _, _⟩ := (mem_synPairs b n term syn d).1 h
+  obtain ⟨f, hf, hk, hn, _⟩ := mem_synDefs.1 hdf
+  exact ⟨p.1, zipIdx_mem_left hp, f, hf, hk, hn⟩
+
+theorem ids_consistent {b : Batch} (hp : SynPlainOK b) (n : Name) {d : DocIn} (hd : d ∈ b)
+    {f : FieldIn} (hf : f ∈ d.fields) (hk : f.kind = .syn) (hn : f.name = n)
+    {df : SynDefn} (hdf : df ∈ f.defs) {syn : Bytes} (hs : syn ∈ df.rhs) :
+    synIdOf (synIds b n) syn < (synIds b n).length ∧
+    (synIds b n)[synIdOf (synIds b n) syn]? = some syn ∧
+    lookup (synIdOf (synIds b n) syn) (buildThes b n).table = some syn := by
+  have hm : syn ∈ synIds b n := rhs_mem_synIds hp hd (mem_synDefs.2 ⟨f, hf, hk, hn, hdf⟩) hs
+  refine ⟨synIdOf_lt hm, synIdOf_get hm, ?_⟩
+  rw [buildThes_eq]; exact lookup_tableOf_synIdOf hm
 
 end Zap.SynL
